@@ -342,6 +342,9 @@ after every message (the standard recording protocol does, the registration prot
 structure Inst where
   st        : IState
   autoDrain : Bool
+  /-- `some l`: the server does not know the instance's tree yet; the messages for the instance are parked by the
+  overlay (`l`, in arrival order) and handed over, in that order, when the tree arrives -/
+  parked    : Option (List Msg) := none
 
 structure State where
   cfg : Cfg := { isRoot := true, nChildren := 0, agg := fun _ => false }
@@ -442,6 +445,9 @@ def imsgStep (s : State) (id t : Nat) (src : Option Nat) (v : Nat) : State × St
       match lookup s.insts id with
       | none => (s, "bad-op")
       | some x =>
+        match x.parked with
+        | some l => ({ s with insts := store s.insts id { x with parked := some (l ++ [{ ty := t, src := src, val := v }]) } }, "-")
+        | none =>
         if x.st.stuck.isSome then (s, "stuck") else   -- the reader is inside `Send`: the harness sends nothing
         let r := istep x.st { ty := t, src := src, val := v }
         match r.2 with
@@ -454,6 +460,44 @@ def imsgStep (s : State) (id t : Nat) (src : Option Nat) (v : Nat) : State × St
             ({ s with insts := store s.insts id { x with st := d.1 } }, showBatches (calls ++ d.2))
           else
             ({ s with insts := store s.insts id { x with st := r.1 } }, showBatches calls)
+
+/-- the tree of a waiting instance arrives (`RegisterTree` → `checkPendingMessages`): the parked messages are
+handed over in the order they were parked; for an instance whose tree is known nothing happens -/
+def iarriveStep (s : State) (id : Nat) : State × String :=
+  match lookup s.insts id with
+  | none => (s, "bad-op")
+  | some x =>
+    match x.parked with
+    | none => (s, "-")
+    | some l =>
+      let s0 := { s with insts := store s.insts id { x with parked := none } }
+      let r := l.foldl (fun (acc : State × List String) m =>
+        let o := imsgStep acc.1 id m.ty m.src m.val
+        (o.1, if o.2 = "-" then acc.2 else acc.2 ++ [o.2])) (s0, [])
+      (r.1, if r.2.isEmpty then "-" else ";".intercalate r.2)
+
+/-- the operations that may happen while a flush of ANOTHER tree is handing over a message that cannot be
+delivered (`ifail`): messages for the instances, arrivals of their trees, re-registrations -/
+def innerStep (s : State) (toks : List String) : State × String :=
+  match toks with
+  | ["imsg", id, t, src, v] =>
+    let src? : Option (Option Nat) := if src = "p" then some none else src.toNat?.map some
+    match id.toNat?, t.toNat?, src?, v.toNat? with
+    | some id, some t, some src, some v => imsgStep s id t src v
+    | _, _, _, _ => (s, "bad-op")
+  | ["iarrive", id] =>
+    match id.toNat? with
+    | some id => iarriveStep s id
+    | none => (s, "bad-op")
+  | ["ireg", id] =>
+    match id.toNat?.bind (lookup s.insts) with
+    | some _ => (s, "ok")
+    | none => (s, "bad-op")
+  | _ => (s, "bad-op")
+
+def splitBar : List String → List String → List (List String)
+  | [], cur => [cur]
+  | x :: xs, cur => if x = "|" then cur :: splitBar xs [] else splitBar xs (cur ++ [x])
 
 /-- `cfg <root|inner> <nChildren> <aggregated types, comma separated>` and
 `msg <type> <p|child index> <value>`; the reply to `msg` is the dispatched batch or `-`.
@@ -490,6 +534,26 @@ def step (s : State) (toks : List String) : State × String :=
     match id.toNat?.bind (lookup s.insts) with
     | some _ => (s, "ok")
     | none => (s, "bad-op")
+  -- `parked`: the server does not know the tree of the instance; its messages wait until `iarrive <id>`
+  | ["inst", id, r, n, "std", "parked"] =>
+    match id.toNat?, n.toNat?, (if r = "root" then some true else if r = "inner" then some false else none) with
+    | some id, some n, some isRoot =>
+      let reg := (regScript Reg.empty stdScript).1
+      ({ s with insts := store s.insts id { st := { isRoot := isRoot, nChildren := n, reg := reg }, autoDrain := true, parked := some [] } }, "ok")
+    | _, _, _ => (s, "bad-op")
+  | ["iarrive", id] => innerStep s ["iarrive", id]
+  -- `ifail | <op> | <op> …`: a flush of another tree hands over a parked message that cannot be delivered (no such
+  -- protocol); while that hand-over runs, the operations are executed one after the other. The failed message
+  -- concerns no instance: the reply is that of the operations
+  | "ifail" :: rest =>
+    match rest with
+    | [] => (s, "ok")
+    | "|" :: more =>
+      let r := (splitBar more []).foldl (fun (acc : State × List String) g =>
+        let o := innerStep acc.1 g
+        (o.1, acc.2 ++ [o.2])) (s, [])
+      (r.1, "|".intercalate r.2)
+    | _ => (s, "bad-op")
   | ["inst", id, r, n, "std"] =>
     match id.toNat?, n.toNat?, (if r = "root" then some true else if r = "inner" then some false else none) with
     | some id, some n, some isRoot =>
